@@ -55,6 +55,28 @@ DESC.update({
  "C29b": ("split descriptor `post` takes the new hidden flag", "multi-column descriptor, set_column_hidden on a member that is not the last"),
 })
 
+DESC.update({
+ "C26b": ("set_cell_with_formula stores the text computed before the ')' auto-completion retry (as C26)", "formula typed without its closing parenthesis, then to_bytes/from_bytes"),
+ "C13c": ("move_cell stamps the source style before re-entering the formula", "formula cell behind the deleted band whose entry implies a number format"),
+ "C14c": ("stringify_reference, DisplaceData::Column arm tests full_row instead of full_column", "whole-column reference right of an inserted/deleted column"),
+ "C15c": ("RowMove / ColumnMove arms of stringify_reference additionally guarded with !full_column / !full_row (crossed flags)", "whole-row or whole-column range over a moved block"),
+ "C18c": ("get_localized_text swaps the decimal point only when the text contains no exponent", "number shown in scientific notation in a comma-decimal locale"),
+ "C22c": ("stringify_reference bounds test `row >= LAST_ROW` (off by one)", "reference to the last row of the grid"),
+ "C24c": ("sheet rels part named after sheet_id instead of the sheet's position", "workbook whose sheet ids are not 1..n (a sheet was deleted), external hyperlink"),
+ "C28c": ("redo arm of DeleteSheet drops the trailing clamp_selected_sheet()", "redo of the deletion of the last, selected sheet"),
+ "C31c": ("cut of a dynamic anchor skips paste-target coordinates even when pasting on another sheet", "cut a spilling anchor and paste it on another sheet at overlapping coordinates"),
+ "C01d": ("undo arm of DeleteConditionalFormatting recomputes the slot from priorities instead of the recorded index", "rules whose priorities are not in list order"),
+ "C02d": ("update_defined_name records the typed new_formula instead of the canonical text read back", "non-English language, undo then redo of a defined-name update"),
+ "C03d": ("redo arm of UpdateDefinedName passes new_scope.or(scope)", "sheet-scoped name promoted to workbook scope, applied on a replica"),
+ "C04d": ("update_named_style tests 'new name taken' after it rewrote the style records", "rename to an existing style name together with a style change"),
+ "C05d": ("fn_sum clips a whole-column range with the extent of the formula's sheet", "SUM(Sheet2!A:A) where Sheet2 is longer than the formula's sheet"),
+ "C06d": ("compare_values (String, EmptyCell) arm returns 1", "empty string on the left of a comparison with a blank cell"),
+ "C07d": ("stringify no longer parenthesises a product under %", "=(a/b)% saved and reloaded"),
+ "C08d": ("xlsx parse_cell_number tests the text instead of the parsed value for finiteness", "cell value 1e999 in an xlsx file"),
+ "C09d": ("name_needs_quoting first-character rule only rejects ASCII digit or dot (as C22)", "sheet name starting with a non-ASCII numeric character"),
+ "C10d": ("LambdaCallKind arm of stringify joins arguments with a hard-coded comma", "immediately invoked LAMBDA with numeric arguments in a comma-decimal locale"),
+})
+
 def sh(cmd, cwd=None):
     return subprocess.run(cmd, shell=True, cwd=cwd, capture_output=True, text=True)
 def run_check(pid):
